@@ -171,7 +171,7 @@ func run(p *hx.Plan) []hx.Event {
 	var evs []hx.Event
 	for i, st := range p.Steps {
 		op := hx.S(st, "op")
-		ev := hx.Event{"op": op, "i": i + 1}
+		ev := hx.Event{"op": op, "i": i + 1, "n": len(p.Steps)}
 		fault := hx.I(st, "fault")
 		w.env.Store.ResetCalls()
 		w.env.FailEntity(0)
